@@ -272,6 +272,30 @@ pub fn c14(d: &Digest, s: usize, out: &mut Vec<Violation>) {
         if sd.first_shutdown_inv.map(|f| iret > f).unwrap_or(false) {
             continue; // created during/after shutdown: not quantified over
         }
+        // "dropping it detaches it from the store": once drop() has returned, the reducer offers that
+        // iterator nothing for any action it takes from the dispatch queue afterwards
+        if let (Some(ch), Some(rt), Some(_)) = (d.iter_chan.get(&it), sd.rtid, sd.dchan) {
+            if let Some(dret) = d.calls.iter().find(|x| matches!(x.op, OpK::DropIter { it: i } if i == it) && x.res == Some(Res::Unit)).and_then(|x| x.ret) {
+                let mut last_take = None;
+                for (j, e) in d.ev.iter().enumerate() {
+                    if e.tid != rt {
+                        continue;
+                    }
+                    match &e.k {
+                        K::ChRecv { chan, .. } if Some(*chan) == sd.dchan => last_take = Some(j),
+                        K::ChSend { chan, .. } | K::ChFull { chan } if chan == ch && j > dret && last_take.map(|t| t > dret).unwrap_or(false) => {
+                            v(out, "C14", "not-detached", format!("store {s}: iterator {it} was dropped, yet the reducer still offered it the notification of an action it took afterwards"));
+                            break;
+                        }
+                        K::Block { on: BlockOn::ChanSend(c) } if c == ch && j > dret && last_take.map(|t| t > dret).unwrap_or(false) => {
+                            v(out, "C14", "not-detached", format!("store {s}: iterator {it} was dropped, yet the reducer still waits on its queue for an action it took afterwards"));
+                            break;
+                        }
+                        _ => {}
+                    }
+                }
+            }
+        }
         let items: Vec<Option<(u32, u64, ActId)>> = d
             .ev
             .iter()
